@@ -376,6 +376,9 @@ func NewListener(log *Log) *Listener {
 	return &Listener{ch: make(chan net.Conn, 64), closed: make(chan struct{}), log: log}
 }
 
+// SetLog makes the listener log its closing.
+func (l *Listener) SetLog(log *Log) { l.log = log }
+
 func (l *Listener) Accept() (net.Conn, error) {
 	select {
 	case <-l.closed:
@@ -392,10 +395,11 @@ func (l *Listener) Accept() (net.Conn, error) {
 
 func (l *Listener) Close() error {
 	l.once.Do(func() {
-		close(l.closed)
+		// log first: nobody can observe the closed listener before the event is in the log
 		if l.log != nil {
 			l.log.Append(Ev{"k": "listener-closed"})
 		}
+		close(l.closed)
 	})
 	return nil
 }
